@@ -41,10 +41,14 @@ PARTIAL = [
     "(volume_remove_removable_knot_object_rows); knot insertion preserves AllActive when the parameter is strictly right of the left end of the domain "
     "(insertion_preserves_allActive; refuted without that proviso on an unclamped knot vector: insertion_preserves_allActive_needs_interior), so the "
     "activity hypothesis may be checked on the reduced knot vector (removableKnot_of_reduced_active); all instantiated on explicit surfaces / volumes "
-    "over Q. NOT proved: the 'removable at all' forms when ONE remove_knot call requests several directions (OnlyDir is assumed), and removable knots in "
+    "over Q. ALSO PROVED (section (M)): 'removable at all' when ONE remove_knot call requests SEVERAL directions - a surface / volume S from which the knots of a list "
+    "(dir, ub, r) with distinct directions, in ANY order, are removable one after the other as a surface / volume (SurfRemChain / VolRemChain: a chain of SurfRemovableObj / "
+    "VolRemovableObj links, last witness T) IS insert_knot of T with all these directions requested in one call, and one remove_knot call with counts t_d <= r_d returns "
+    "insert_knot of T with the counts r_d - t_d, T itself for t = r, evaluated points those of T (surface/volume_remove_removable_knots_several_directions(_points); "
+    "instantiated on an explicit 3 x 6 surface from which 1/2 (u, once) and 1/4 (v, twice) are removable: one call returns the 2 x 4 witness). NOT proved: removable knots in "
     "a curve / surface / volume some of whose basis functions vanish on the whole domain (a knot of multiplicity > p+1, or an unclamped knot vector "
     "refined at the left end of its domain: there the control points are NOT unique); these are checked by the exact oracle and the correspondence only",
-    "object-level (Shape) round trip removeKnot (insertKnot S ...).1 ... = (S, true), the partial version (r in, t <= r out = r - t in) and the evaluated-point corollary are proved for curves, for either direction of a surface and for any direction of a volume (surface_insert_then_remove, volume_insert_then_remove, *_insert_r_remove_t_object, *_remove_after_insert_preserves_points) when the call requests ONE direction (OnlyDir); insert in several directions followed by removal in several directions is not proved (the removal of the first direction then runs on a net refined in the others: needs the commutation of insertion in one direction with removal in another)",
+    "object-level (Shape) round trip: for curves, and for surfaces / volumes with ONE requested direction (OnlyDir), removeKnot (insertKnot S ...).1 ... = (S, true), the partial version (r in, t <= r out = r - t in) and the evaluated-point corollary (surface_insert_then_remove, volume_insert_then_remove, *_insert_r_remove_t_object, *_remove_after_insert_preserves_points); SEVERAL DIRECTIONS IN ONE CALL EACH (section (M), PROVED): insert_knot requesting any subset of the directions of a surface / volume (every requested direction RoundOk: RoundCallOk) followed by remove_knot with the same parameters and counts t_d <= r_d (0 = leave the direction alone) returns exactly what insert_knot with the counts r_d - t_d returns, the original object for t = r, every evaluated point unchanged (surface/volume_insert_then_remove_several_directions(_same), *_remove_several_directions_preserves_points); the removal of the first direction runs on a net refined in the others: A5.1 is a linear map of the control polygon with coefficients from the knots only (knot_insertion_is_linear), hence the direction steps of insert_knot along different directions commute as objects (surface/volume_insert_directions_commute: gather / scatter of two directions commute), the step is moved through the later ones, cancelled by the one-direction theorem and the rest moved back; kernel-checked run on the example surface (both directions, counts (1,2) in, (1,1) out), replayed on the implementation (stream ins-rem, tag lean-witness). For volumes the several-direction theorems are about the per-iso-curve model removeKnot (= the rows branch on inserted knots, see the next item)",
     "volumes, list-of-rows branch of helpers.knot_removal: MODELLED as coded (knotRemovalRows: sweep over whole rows, ONE removability flag per step from the FIRST point of the rows, and the object sharing between temp and ctrlpts_new - temp[last-first+2] = ctrlpts_new[last+1] stores the list itself, which the sweep of the next step writes into; streams rem-rows (inserted / random / only-first-removable / first-not-removable rows, 1..s copies, and the three Lean witnesses) and rem-vol-rows against the real helper called with rows and against operations.remove_knot on volumes, removable or not). PROVED: if every iso-curve passes the removability test at every step (Rows.AllRemovable, decidable; true after insertion: inserted_knots_all_removable) the rows branch returns exactly the per-iso-curve results (knotRemovalRows_isocurve_of_all_removable, knotRemovalRows_is_transposed_knotRemoval, mapVolRows_remove_eq_mapVol, removeKnotVolRows_is_removeKnotDir, volume_u/v/w_rows_insert_r_remove_t); for ONE removal it does so on every iso-curve whose flag equals the first iso-curve's flag (knotRemovalRows_one_removal_isocurve_of_equal_flags); rows stay rectangular for any input. REFUTED on concrete witnesses (kernel-decided, replayed on the implementation): the two flag mismatches (knotRemovalRows_refutes_isocurve_when_only_first_removable / _when_first_not_removable) and, for 2+ removals of a knot that is NOT removable, the write through the shared row, which changes a control point even with a single iso-curve (knotRemovalRows_refutes_point_branch_on_shared_row: rows branch 8, point branch 1). NOT proved: agreement for 2+ removals when some step finds the knot not removable (there the two branches of the CODE genuinely differ); the object-level model removeKnotDir / removeKnot keeps deciding per iso-curve, so the operation-level streams ins-rem* still generate only removable knots for volumes - the rows model (rowsvol) is the one compared on unremovable volume knots",
     "knotRemovalRows_isocurve_of_all_removable / knotRemovalRows_one_removal_isocurve_of_equal_flags carry the rectangular-rows guard of the code / driver as hypothesis (not used by the proofs)",
     "the object-level theorems that take the param / num lists of insert_knot / remove_knot (surface/volume_insert_then_remove, *_remove_after_insert_preserves_points, "
@@ -160,6 +164,15 @@ def gen(rng, tier):
         line = "%s %s %s I %s %s 1 R %s %s 1" % (op, KO.KIND[d['kind']], S.args(d), KO.opt(prm), ",".join(map(str, nr)),
                                                  KO.opt(prm), ",".join(map(str, nt)))
         out.append(Case(kind, line, dict(shape=d, dir=[i for i in range(nd) if prm[i] is not None][0], prm=prm, nr=nr, nt=nt), tags=('multi-dir',)))
+    # the Lean witness of Props/C06 section (M): exSurfQ, both directions in one call, counts (1, 2) in, (1, 1) / (1, 2) out
+    exs = dict(kind='surface', rat=False, pu=1, pv=2, kvu=[F(0), F(0), F(1), F(1)],
+               kvv=[F(0), F(0), F(0), F(1, 2), F(1), F(1), F(1)], su=2, sv=4, dim=3,
+               P=[[F(x) for x in pt] for pt in [[0, 0, 0], [0, 1, 1], [0, 2, 0], [0, 3, 1], [1, 0, 0], [1, 1, 2], [1, 2, 0], [1, 3, 1]]])
+    for nt in ([1, 1], [1, 2], [0, 2]):
+        prm = [F(1, 2), F(1, 4)]; nr = [1, 2]
+        line = "ops %s %s I %s %s 1 R %s %s 1" % (KO.KIND['surface'], S.args(exs), KO.opt(prm), ",".join(map(str, nr)),
+                                                KO.opt(prm), ",".join(map(str, nt)))
+        out.append(Case('ins-rem', line, dict(shape=exs, dir=0, prm=prm, nr=nr, nt=list(nt)), tags=('multi-dir', 'lean-witness')))
     # list-lengths (diagnostic correspondence, audit 4 H5): the param / num lists of insert_knot / remove_knot with
     # other lengths than the number of parametric directions.  The code checks len(num) only (and only with
     # check_num); param[i] is read for every direction (IndexError when too short), a LONGER param list is accepted;
